@@ -22,6 +22,11 @@ class Interp9(Interp8):
         h = getattr(self, "method_hook10", None)
         return h(obj, meth, pos, kw, node) if h else None
 
+    def len_of(self, x, node):
+        if isinstance(x, SAdt) and x.sort == "Child" and self.implied(self.is_c("CSeq", x.t)):
+            return SInt(self.F("clen", self.acc("CSeq", "items", x.t)), nat=True)          # len(list / tuple / TagList argument)
+        return super().len_of(x, node)
+
     def stmt_Raise(self, s):
         if s.exc is not None and isinstance(s.exc, ast.Call) and isinstance(s.exc.func, ast.Name):
             cls = self.eval(s.exc.func)
